@@ -251,7 +251,8 @@ PROPS["C05"] = {
     "floors": {"any": {"directed:import-and-export-orders": 64, "packages-encoded-by-both": 5000, "interfaces-compared": 12000, "worlds-compared": 10000,
                        "world-items-compared": 8000, "worlds-one-way-checked": 1500, "feature:use-foreign": 1000,
                        "feature:use-rename": 1000, "feature:include-with": 800, "feature:resource": 1500}},
-    "rule": "Each case draws 0-1 dependency packages (optionally versioned) and one package text inside the shared WIT/WAC subset: "
+    "rule": "Directed: all 64 ordered selections of {import a, export a, import b, export b} as the items of one world, b using a resource of a (which `a` a `use` denotes depends on what precedes it), compared without the zone of the recorded finding. "
+            "Random: each case draws 0-1 dependency packages (optionally versioned) and one package text inside the shared WIT/WAC subset: "
             "1-4 interfaces (records, variants, enums, flags, aliases, lists/options/results/tuples, resources with constructors, "
             "methods and statics, own/borrow handles, `use` of local and foreign interfaces with renames, chains and diamonds) and "
             "1-3 worlds (interface imports/exports by name and by package path, plain functions, inline interfaces, `include` and "
